@@ -210,3 +210,104 @@ proof fn wmc_node<T: Semiring>(p: BddPtr, n: BddNode, c: bool, cc: bool, w: W<T>
     assert forall|e: Env| #[trigger] g(e) == (if e(v) { gh(e) } else { gl(e) }) by {}
     zsum_shannon(g, gl, gh, w, vs, env, v);
 }
+
+/// the variables at levels k, k+1, .. of the order, listed from the bottom level up (so that level k is summed outermost)
+pub open spec fn levels(o: VarOrder, k: int) -> Seq<u64> {
+    Seq::new((o.n() - k) as nat, |i: int| o.pos_to_var[o.n() - 1 - i] as u64)
+}
+/// THEOREM (C08, counting consequence; C07, last sentence for smoothed diagrams).  For a diagram that tests the variables at
+/// levels k.. of the order exactly once on every path, in order (`smooth_from` up to the last level -- what `smooth`
+/// is proved to return), and ARBITRARY weights (no normalisation), the count computed by the fold equals the semiring sum
+/// over all assignments of those variables of the product of the chosen literal weights times the indicator of the
+/// diagram's function.
+pub proof fn wmc_smooth_theorem<T: Semiring>(p: BddPtr, c: bool, w: W<T>, o: VarOrder, k: int, env: Env)
+    requires
+        csr::<T>(), wv(w), o.wf(), ordered(p, o), 0 <= k <= o.n(), top(p, o) >= k,
+        smooth_from(p, k, o.n() as int, o),
+    ensures
+        wmc_spec(p, c, w) == zsum(indf::<T>(p, c), w, levels(o, k), env),
+    decreases o.n() - k,
+{
+    reveal(VarOrder::wf);
+    c_consts::<T>();
+    let g = indf::<T>(p, c);
+    let n = o.n() as int;
+    if k >= n {
+        // below the last level an ordered diagram is a terminal
+        if is_node(p) { assert(o.has(node_of(p).var)); assert(o.pos(node_of(p).var) < n); }
+        assert(levels(o, k).len() == 0);
+    } else {
+        let nd = node_of(p);
+        let v = nd.var.0;
+        let cc = (c != (p is Compl));
+        let vs = levels(o, k);
+        assert(vs.last() == v);
+        assert(vs.drop_last() =~= levels(o, k + 1));
+        let e0 = upd(env, v, false); let e1 = upd(env, v, true);
+        wmc_smooth_theorem(nd.low, cc, w, o, k + 1, e0);
+        wmc_smooth_theorem(nd.high, cc, w, o, k + 1, e1);
+        let gl = indf::<T>(nd.low, cc); let gh = indf::<T>(nd.high, cc);
+        assert(!levels(o, k + 1).contains(v)) by {
+            let lv = levels(o, k + 1);
+            if lv.contains(v) {
+                let i = choose|i: int| 0 <= i < lv.len() && lv[i] == v;
+                let j = n - 1 - i;
+                assert(o.pos_to_var[j] == o.pos_to_var[k]);
+                assert(o.var_to_pos[o.pos_to_var[j] as int] == j);
+                assert(o.var_to_pos[o.pos_to_var[k] as int] == k);
+            }
+        }
+        zsum_cong_fix(g, gl, w, levels(o, k + 1), e0, v, false);
+        zsum_cong_fix(g, gh, w, levels(o, k + 1), e1, v, true);
+    }
+}
+
+/// every variable tested in an ordered diagram is in the order, at or after the root's level
+pub proof fn lemma_ordered_mentions(p: BddPtr, o: VarOrder, x: VarLabel)
+    requires o.wf(), ordered(p, o), mentions(p, x),
+    ensures o.has(x), o.pos(x) >= top(p, o), is_node(p),
+    decreases p,
+{
+    match p {
+        BddPtr::Reg(n) | BddPtr::Compl(n) => {
+            if n.var != x {
+                if mentions(n.low, x) { lemma_ordered_mentions(n.low, o, x); } else { lemma_ordered_mentions(n.high, o, x); }
+            }
+        },
+        _ => {},
+    }
+}
+/// an ordered diagram (what every BDD operation is proved to return: C01 / C02) decides no variable twice on a path
+pub proof fn lemma_ordered_decides_once(p: BddPtr, o: VarOrder)
+    requires o.wf(), ordered(p, o),
+    ensures decides_once(p),
+    decreases p,
+{
+    match p {
+        BddPtr::Reg(n) | BddPtr::Compl(n) => {
+            lemma_ordered_decides_once(n.low, o); lemma_ordered_decides_once(n.high, o);
+            if mentions(n.low, n.var) { lemma_ordered_mentions(n.low, o, n.var); }
+            if mentions(n.high, n.var) { lemma_ordered_mentions(n.high, o, n.var); }
+        },
+        _ => {},
+    }
+}
+/// the variables 0 .. n-1 in label order
+pub open spec fn labels(n: nat) -> Seq<u64> { Seq::new(n, |i: int| i as u64) }
+/// COROLLARY for BDDs: an ordered diagram over an order with n variables (n < 2^64), weights normalised on every label:
+/// the count is the sum over all assignments of the labels 0 .. n-1
+pub proof fn wmc_bdd_corollary<T: Semiring>(p: BddPtr, c: bool, w: W<T>, o: VarOrder, env: Env)
+    requires
+        csr::<T>(), wv(w), o.wf(), ordered(p, o), o.n() <= u64::MAX,
+        forall|l: u64| l < o.n() ==> normalised(w, l),
+    ensures
+        wmc_spec(p, c, w) == zsum(indf::<T>(p, c), w, labels(o.n()), env),
+{
+    lemma_ordered_decides_once(p, o);
+    let vs = labels(o.n());
+    assert forall|x: VarLabel| mentions(p, x) implies vs.contains(x.0) by {
+        lemma_ordered_mentions(p, o, x);
+        assert(vs[x.0 as int] == x.0);
+    }
+    wmc_theorem(p, c, w, vs, env);
+}
